@@ -1,6 +1,12 @@
 mod connection;
 mod request;
 
+/// Verification hooks: re-exports of otherwise private items
+#[cfg(feature = "verif")]
+pub mod verif_api {
+    pub use super::request::*;
+}
+
 use std::cell::RefCell;
 use std::net::SocketAddr;
 use std::os::unix::prelude::{FromRawFd, IntoRawFd};
@@ -132,6 +138,13 @@ impl ListenerState {
         let mut incoming = listener.incoming();
 
         while let Some(stream) = incoming.next().await {
+            #[cfg(feature = "verif")]
+            if let aquatic_common::verif::ProbeAction::Return =
+                aquatic_common::verif::probe("http:socket:accept", self.worker_index as u64)
+            {
+                return;
+            }
+
             match stream {
                 Ok(stream) => {
                     let opt_valid_until = ValidUntil::new(
@@ -192,6 +205,9 @@ impl ListenerState {
 
         #[cfg(feature = "metrics")]
         active_connections_gauge.increment(1.0);
+
+        #[cfg(feature = "verif")]
+        aquatic_common::verif::probe("http:socket:conn", self.worker_index as u64);
 
         let f1 = async {
             run_connection(
